@@ -32,12 +32,17 @@ TrRemovable == SeqToSet(Hdr.rm)
 TrMaxId   == Hdr.max_id
 TrStride  == Hdr.stride
 
-VARIABLE l
-tvars == <<vars, l>>
+VARIABLES l,
+  flt       \* fault tier: a storage fault was injected into the operation in progress
+tvars == <<vars, l, flt>>
 
 Ev == Rec[l]
 IsEv(e) == l <= Len(Rec) /\ Ev.e = e /\ l' = l + 1
-IsBe(c) == IsEv("be") /\ Ev.cls = c /\ Ev.res = "ok"
+\* an executed backend mutation: reported Ok, or applied and THEN reported as an error ("fault_landed")
+IsBe(c) == IsEv("be") /\ Ev.cls = c /\ Ev.res \in {"ok", "fault_landed"}
+\* an injected fault (error returned; applied or not)
+IsBeF(c) == IsEv("be") /\ Ev.cls = c /\ Ev.res \in {"fault", "fault_landed"}
+Landed == Ev.res = "fault_landed"
 Has(f) == f \in DOMAIN Ev
 
 TrReset == IsEv("reset") /\ UNCHANGED vars
@@ -59,7 +64,7 @@ TrInit ==
 
 ---------------------------------------------------------------------------
 TrCall ==
-  /\ IsEv("call")
+  /\ IsEv("call") /\ ~Has("dead")
   /\ CASE Ev.op = "add"     -> AddCall(Ev.val)
        [] Ev.op = "update"  -> IF Ev.id \in mIds THEN UpdCall(Ev.id, Ev.val) ELSE UpdMissing(Ev.id)
        [] Ev.op = "remove"  -> IF Ev.id \in mIds THEN RemCall(Ev.id) ELSE RemMissing(Ev.id)
@@ -71,8 +76,13 @@ TrCall ==
        [] OTHER -> FALSE
 
 TrRet ==
-  /\ IsEv("ret")
-  /\ CASE Ev.op = "add" /\ Ev.ok        -> AddRet /\ Ev.id = cur.id
+  /\ IsEv("ret") /\ ~Has("dead")
+  /\ CASE \* fault tier: the operation failed and left the handle poisoned - only after an injected
+          \* fault; a poisoned handle is a crashed one (nothing volatile survives, only a reopen recovers)
+          Has("poisoned") /\ Ev.poisoned   -> ~Ev.ok /\ flt /\ Crash
+          \* fault tier: the operation failed and the handle stays healthy
+       [] pc = "fail_ret"                  -> ~Ev.ok /\ flt /\ FailRet
+       [] Ev.op = "add" /\ Ev.ok        -> AddRet /\ Ev.id = cur.id
        [] Ev.op = "add" /\ ~Ev.ok       -> AddReject
        [] Ev.op = "update" /\ Ev.ok     -> UpdRet
        [] Ev.op = "update" /\ ~Ev.ok    -> IF pc = "miss_ret" THEN MissRet ELSE UpdReject
@@ -89,6 +99,36 @@ TrRet ==
 (* backend mutations                                                       *)
 
 TrWm == IsBe("wm") /\ AddWmPut /\ dWM' = Ev.val
+
+---------------------------------------------------------------------------
+(* fault tier: injected storage faults.  A fault that did not land changes *)
+(* nothing durable; one that landed is the executed mutation (IsBe accepts *)
+(* it).  What the handle does next decides which action it was: the steps  *)
+(* that keep the handle healthy have their own actions (watermark put,     *)
+(* document create + compensating delete, intent put); after any other     *)
+(* faulted step the only continuation the specification has is a return    *)
+(* that reports the handle POISONED (TrRet), i.e. Crash.                   *)
+TrFaultNoLand == IsEv("be") /\ Ev.res = "fault" /\ up /\ pc # "idle" /\ UNCHANGED vars
+
+TrFaultHealthy ==
+  \/ IsBeF("wm") /\ AddWmFail(Landed) /\ (Landed => dWM' = Ev.val)
+  \/ IsBeF("doc") /\ Ev.kind = "put" /\ Ev.mode = "create" /\ AddDocFail(Landed) /\ cur.id = Ev.id /\ cur.val = Ev.val
+  \/ IsBeF("intent") /\ Ev.kind = "put" /\ IntentFail(Ev.seq, Landed)
+        /\ Ev.id = cur.id /\ Ev.prev = cur.prev /\ Ev.post = (IF cur.op = "update" THEN cur.val ELSE NoDoc)
+
+\* the delete that compensates a failed create (Ok, or nothing there)
+TrAddComp ==
+  /\ IsEv("be") /\ Ev.cls = "doc" /\ Ev.kind = "delete" /\ Ev.res \in {"ok", "notfound", "fault_landed"}
+  /\ AddCompDelete /\ cur.id = Ev.id
+
+\* a poisoned handle: it reports its state, refuses every call, and writes nothing (no backend event
+\* is accepted while pc = "down")
+TrDead ==
+  /\ pc = "down"
+  /\ \/ IsEv("obs") /\ Ev.state = "Poisoned"
+     \/ IsEv("call") /\ Has("dead")
+     \/ IsEv("ret") /\ Has("dead") /\ ~Ev.ok
+  /\ UNCHANGED vars
 
 TrDoc ==
   /\ IsBe("doc")
@@ -122,7 +162,7 @@ TrIdxInit == IsBe("idx_init") /\ CbCreateIndex(Ev.idx)
 \* bucket / node objects and obsolete-object deletions: no abstract effect, but only while an index
 \* is being persisted or dropped
 TrIdxObj ==
-  /\ IsBe("idx_obj")
+  /\ IsEv("be") /\ Ev.cls = "idx_obj"          \* whatever its outcome: no abstract effect
   /\ up
   /\ \/ pc \in {"fl_idx", "cmp"} /\ Ev.idx \in mIdxSet
      \/ pc = "open_cb"
@@ -176,13 +216,19 @@ TrObs == IsEv("obs") /\ ObsOk /\ UNCHANGED vars
 ---------------------------------------------------------------------------
 TraceInit ==
   /\ Init
-  /\ l = 1
+  /\ l = 1 /\ flt = FALSE
+
+FltStep ==
+  flt' = IF Ev.e = "be" /\ Ev.res \in {"fault", "fault_landed"} THEN TRUE
+         ELSE IF Ev.e \in {"call", "init"} THEN FALSE ELSE flt
 
 TraceNext ==
-  \/ TrReset \/ TrInit \/ TrCall \/ TrRet
-  \/ TrWm \/ TrDoc \/ TrIntent \/ TrColMeta \/ TrColIds \/ TrCp
-  \/ TrIdxCommit \/ TrIdxInit \/ TrIdxObj
-  \/ TrCrash \/ TrCbBegin \/ TrCbRemove \/ TrCbEnd \/ TrObs
+  /\ \/ TrReset \/ TrInit \/ TrCall \/ TrRet
+     \/ TrWm \/ TrDoc \/ TrIntent \/ TrColMeta \/ TrColIds \/ TrCp
+     \/ TrIdxCommit \/ TrIdxInit \/ TrIdxObj
+     \/ TrFaultNoLand \/ TrFaultHealthy \/ TrAddComp \/ TrDead
+     \/ TrCrash \/ TrCbBegin \/ TrCbRemove \/ TrCbEnd \/ TrObs
+  /\ FltStep
 
 TraceSpec == TraceInit /\ [][TraceNext]_tvars
 
